@@ -32,7 +32,23 @@ seeded = open(f'{ROOT}/tools/design_section9_seeded.md').read() + '\n'.join(srow
 s = open(f'{ROOT}/tools/design_section9.md').read().replace('@@TABLE@@', table).replace('@@SEEDED@@', seeded)
 benign = ('| id | written for | the change | checks that still answer | what the checks had to learn (where recorded) |\n|---|---|---|---|---|\n'
           + '\n'.join(brows))
-s10 = open(f'{ROOT}/tools/design_section10.md').read().replace('@@BENIGN@@', benign)
+ok4 = 0
+for d_ in sorted(os.listdir(f'{ROOT}/seeded')):
+    if d_.endswith('-ok4'):
+        m_ = json.load(open(f'{ROOT}/seeded/{d_}/meta.json'))
+        if not m_.get('pending') and not m_.get('imprecise'):
+            ok4 += 1
+import importlib.util, glob
+nf = nb = 0
+for vf in sorted(glob.glob(f'{ROOT}/selftest/variants_*.py')):
+    spec = importlib.util.spec_from_file_location('v', vf)
+    mod = importlib.util.module_from_spec(spec)
+    spec.loader.exec_module(mod)
+    nf += sum(1 for v in mod.VARIANTS if v['expect'] == 'violation')
+    nb += sum(1 for v in mod.VARIANTS if v['expect'] != 'violation')
+s10 = open(f'{ROOT}/tools/design_section10.md').read().replace('@@BENIGN@@', benign).replace('@@OK4@@', str(ok4)) \
+    .replace('@@CATALOGUE@@', f'{nf + nb} variants: {nf} faults reported, {nb} refactorings silent')
+s = s.replace('@@CATALOGUE@@', f'{nf + nb} variants: {nf} faults reported, {nb} refactorings silent')
 d = open(f'{ROOT}/DESIGN.md').read()
 marker = '-' * 93 + '\n\n## Appendix A'
 assert marker in d
